@@ -595,7 +595,7 @@ func (r *udpRun) check(which string) {
 			case !s.destOK:
 				status = "ERR_ADDRESS" // _INVALID or _PRIVATE
 				if s.destErr == "resolve" {
-					status = "ERR_RESOLVE"
+					status = "ERR_RESOLVE|ERR_ADDRESS" // either word names it
 				}
 			default:
 				status = "OK"
